@@ -242,8 +242,23 @@ struct Pending {
 }
 
 fn run_case(out: &mut Out, case: &Case) {
-    out.op(&format!("statsd new {} {}", case.max, case.lp as u8), "ok");
-    let mut writer = Writer::new(case.max, case.lp);
+    let new_line = format!("statsd new {} {}", case.max, case.lp as u8);
+    let mut writer = match catch_unwind(|| Writer::new(case.max, case.lp)) {
+        Ok(w) => {
+            out.op(&new_line, "ok");
+            w
+        }
+        Err(_) => {
+            // `PayloadWriter::new` asserts that the limit fits a u32; the builder never lets a larger one through
+            // (theorem `build_no_panic`), so only a panic BELOW 2^32 is a violation
+            out.op(&new_line, "panic");
+            out.count("new.panic");
+            if (case.max as u64) < (1u64 << 32) {
+                out.oracle_fail("serialisation panicked", &format!("PayloadWriter::new({}, {}) panicked", case.max, case.lp));
+            }
+            return;
+        }
+    };
     let mut pending: Vec<Pending> = vec![];
     let mut drains = 0;
     let mut nontrivial = false;
@@ -313,7 +328,44 @@ fn run_case(out: &mut Out, case: &Case) {
     }
 }
 
+/// what the Lean grammar-level reader (`Model/StatsdRead.lean`) must answer for a payload the Rust reader accepted:
+/// the same fields, tags split at their first ':'; it rejects `k:` and `:v` tags, which the Rust reader lets through
+fn lean_view(d: &Datagram) -> String {
+    let mut tags: Vec<(String, String)> = vec![];
+    for t in d.tags.iter().flatten() {
+        match t.split_once(':') {
+            None => tags.push((t.clone(), String::new())),
+            Some((k, v)) => {
+                if k.is_empty() || v.is_empty() {
+                    return "reject".into();
+                }
+                tags.push((k.to_string(), v.to_string()));
+            }
+        }
+    }
+    format!(
+        "{} {} {} {} {} {}",
+        hexs(&d.name),
+        list(d.values.iter().map(|v| hexs(v))),
+        hexs(&d.ty),
+        opt_hexs(d.rate.as_deref()),
+        pairs(&tags),
+        opt_hexs(d.ts.as_deref())
+    )
+}
+
+/// cross-check of the two independent readers on a real payload (bounded per drain to keep the stream small)
+fn cross_read(out: &mut Out, budget: &mut usize, body: &[u8], d: &Datagram) {
+    if *budget == 0 || body.len() > 1500 {
+        return;
+    }
+    *budget -= 1;
+    out.count("reader.cross_checked");
+    out.op(&format!("statsd parse {}", hex(body)), &lean_view(d));
+}
+
 fn check_drain(out: &mut Out, case: &Case, slices: &[Vec<u8>], pending: &[Pending]) {
+    let mut cross_budget = 6usize;
     let ctx = |i: usize| format!("max={} lp={} payload#{}", case.max, case.lp, i);
     // framing
     let mut bodies: Vec<&[u8]> = vec![];
@@ -383,7 +435,13 @@ fn check_drain(out: &mut Out, case: &Case, slices: &[Vec<u8>], pending: &[Pendin
         if !call.representable() {
             out.count("call.unrepresentable");
             // only the point count can be checked: number of ':'-separated values before the first '|' is not
-            // well-defined either; skip content checks
+            // well-defined either; skip content checks.  Where the strict reader accepts the payload anyway, the
+            // Lean reader must see the same thing.
+            for b in mine.iter() {
+                if let Ok(d) = parse_datagram(b) {
+                    cross_read(out, &mut cross_budget, b, &d);
+                }
+            }
             continue;
         }
         let mut got_values: Vec<String> = vec![];
@@ -395,6 +453,7 @@ fn check_drain(out: &mut Out, case: &Case, slices: &[Vec<u8>], pending: &[Pendin
                     bad = true;
                 }
                 Ok(d) => {
+                    cross_read(out, &mut cross_budget, b, &d);
                     let exp_tags = call.tag_texts();
                     let exp_tags = if exp_tags.is_empty() { None } else { Some(exp_tags) };
                     let exp_rate = call.rate;
@@ -468,7 +527,7 @@ fn check_drain(out: &mut Out, case: &Case, slices: &[Vec<u8>], pending: &[Pendin
 // generators
 
 const NAMES: &[&str] = &["requests", "a", "lat", "http.server.duration", "x_1", "Ω", "queue-depth", "n9"];
-const PREFIXES: &[&str] = &["myservice", "p", "svc.eu", "datadog.dogstatsd.client", ""];
+const PREFIXES: &[&str] = &["myservice", "p", "svc.eu", "datadog.dogstatsd.client", "", "é", "Ωmega.svc", "日本"];
 const TKEYS: &[&str] = &["env", "region", "k", "host", "é", "svc"];
 const TVALS: &[&str] = &["", "prod", "eu-west-1", "v", "a:b", "1", "x y"];
 const HOSTILE: &[&str] = &["a|b", "a,b", "a:b", "a\nb", "#", "|#", "@0.5", "|T1", "", ":", "x|c\ny:1|c"];
@@ -514,7 +573,9 @@ fn gen_name(r: &mut Rng, max: usize, overhead: usize) -> String {
         0 => String::new(),
         1 => r.pick_str(NAMES).to_string(),
         2 => {
-            let target = max.saturating_sub(overhead).min(420);
+            // mostly short (cheap), sometimes up to the default limits so that a whole metric is rejected at 1432 / 8192
+            let cap = if r.chance(1, 5) { 9000 } else { 420 };
+            let target = max.saturating_sub(overhead).min(cap);
             let lo = target.saturating_sub(12);
             let n = r.range(lo, target + 4);
             sized_string(r, n)
@@ -541,14 +602,112 @@ fn gen_labels(r: &mut Rng, n_max: usize, hostile: bool) -> Vec<(String, String)>
         .collect()
 }
 
+fn gen_rate(r: &mut Rng) -> Option<f64> {
+    match r.below(6) {
+        0 => Some(*r.pick(&[1.0, 0.5, 0.25, 0.001, 1e-7, 0.3333333333333333, f64::NAN, 0.0, 2.0, -1.0, f64::INFINITY, 1e300])),
+        1 => Some((r.range(1, 1024) as f64) / (r.range(1024, 100_000) as f64)),
+        _ => None,
+    }
+}
+
+fn long_f64(r: &mut Rng) -> f64 {
+    // values whose shortest text is 20+ bytes
+    match r.below(4) {
+        0 => f64::MIN,
+        1 => -123456789.12345679e-300,
+        2 => -f64::MIN_POSITIVE * 1.2345678901234567,
+        _ => {
+            let v = f64::from_bits(r.next() | (1u64 << 63));
+            if v.is_finite() { v } else { f64::MIN }
+        }
+    }
+}
+
+/// A flush cycle that accumulates tens to hundreds of KiB in the writer's buffer (crossing the allocation sizes
+/// 16/32/64/128 KiB), then the drain, then small writes and further drains on the same writer: whatever the writer
+/// does with its buffer between cycles (shrinking, replacing, re-using), the next cycle must be framed and
+/// accounted exactly like the first.  Also the only place where payload bodies exceed 65535 bytes.
+fn gen_burst_case(r: &mut Rng, thorough: bool) -> Case {
+    let lp = !r.chance(1, 4);
+    let max = *r.pick(&[1432usize, 8192, 8192, 70_000, 1 << 20]);
+    let mut ops = vec![];
+    let bursts = if r.chance(1, 3) { 2 } else { 1 };
+    for _ in 0..bursts {
+        let target = 1024 * *r.pick(if thorough { &[17usize, 33, 66, 70, 132, 260][..] } else { &[17usize, 33, 66, 70, 132][..] });
+        let mut acc = 0usize;
+        let mut huge_done = false;
+        while acc < target {
+            if max >= 70_000 && !huge_done && r.chance(1, 2) {
+                // one body above 65535 bytes (third length byte non-zero)
+                huge_done = true;
+                let n = r.range(65_530, 66_200);
+                let name = sized_string(r, n);
+                acc += n + 12;
+                if r.chance(1, 2) {
+                    ops.push(Op::Write(simple(b'c', &name, Vals::U(r.next()), None)));
+                } else {
+                    let vals: Vec<f64> = (0..r.range(1, 120)).map(|_| long_f64(r)).collect();
+                    acc += vals.len() * 24;
+                    ops.push(Op::Write(simple(b'd', &name, Vals::F(vals), None)));
+                }
+                continue;
+            }
+            if r.chance(1, 7) {
+                let n = r.range(150, 700);
+                let vals: Vec<f64> = (0..n).map(|_| long_f64(r)).collect();
+                acc += n * 24;
+                let mut c = simple(b'h', r.pick_str(NAMES), Vals::F(vals), None);
+                c.rate = gen_rate(r);
+                ops.push(Op::Write(c));
+            } else {
+                let n = r.range(1200, 6000).min(max.saturating_sub(r.range(0, 60)));
+                let name = sized_string(r, n);
+                acc += n + 12;
+                if r.chance(1, 2) {
+                    ops.push(Op::Write(simple(b'c', &name, Vals::U(r.next() >> r.below(64)), None)));
+                } else {
+                    ops.push(Op::Write(simple(b'g', &name, Vals::F(vec![special_f64(r)]), None)));
+                }
+            }
+        }
+        ops.push(Op::Drain);
+        // the cycle after the burst
+        for _ in 0..r.range(1, 3) {
+            match r.below(4) {
+                0 => ops.push(Op::Write(simple(b'c', "after.burst", Vals::U(r.below(100) as u64), None))),
+                1 => ops.push(Op::Write(simple(b'g', r.pick_str(NAMES), Vals::F(vec![special_f64(r)]), Some("svc")))),
+                2 => {
+                    let vals: Vec<f64> = (0..r.range(0, 30)).map(|_| special_f64(r)).collect();
+                    ops.push(Op::Write(simple(b'h', r.pick_str(NAMES), Vals::F(vals), None)));
+                }
+                _ => {
+                    // a histogram none of whose values fits (the call writes nothing at all)
+                    let name = sized_string(r, max.saturating_sub(12));
+                    let vals: Vec<f64> = (0..r.range(1, 5)).map(|_| f64::MIN).collect();
+                    ops.push(Op::Write(simple(b'h', &name, Vals::F(vals), None)));
+                }
+            }
+            if r.chance(1, 2) {
+                ops.push(Op::Drain);
+            }
+        }
+        ops.push(Op::Drain);
+    }
+    Case { max, lp, ops }
+}
+
 fn gen_case(r: &mut Rng, thorough: bool) -> Case {
-    let max = match r.weighted(&[1, 4, 7, 4, 2, 2]) {
+    if r.chance(1, 25) {
+        return gen_burst_case(r, thorough);
+    }
+    let max = match r.weighted(&[1, 4, 7, 4, 2, 2, 1]) {
         0 => r.below(6),
         1 => r.range(6, 40),
         2 => r.range(20, 120),
         3 => r.range(100, 400),
         4 => 1432,
-        _ => 8192,
+        5 => 8192,
+        _ => *r.pick(&[65_535usize, 65_536, 70_000, 1 << 20, u32::MAX as usize]),
     };
     let lp = r.chance(1, 2);
     let hostile_case = r.chance(1, 10);
@@ -558,12 +717,19 @@ fn gen_case(r: &mut Rng, thorough: bool) -> Case {
     let globals = gen_labels(r, 3, hostile_case);
     let n_ops = r.range(2, if thorough { 14 } else { 10 });
     let mut ops = vec![];
+    // the key of the latest histogram / distribution call: re-used below so that the SAME key is written again,
+    // back to back or with drains / counters / gauges in between, with another sample rate / other global labels
+    let mut last_hist: Option<(String, Vec<(String, String)>)> = None;
+    // histogram values written since the last drain: bounded by 3000 per flush cycle (the model's writer is a list
+    // machine and quadratic in the undrained buffer; one call of up to 3000 values is the intended extreme)
+    let mut undrained_vals = 0usize;
     for _ in 0..n_ops {
         if r.chance(1, 4) {
             ops.push(Op::Drain);
+            undrained_vals = 0;
             continue;
         }
-        let labels = gen_labels(r, 3, hostile_case);
+        let mut labels = gen_labels(r, 3, hostile_case);
         let (p, g) = if r.chance(1, 8) {
             (if r.chance(1, 2) { Some(r.pick_str(PREFIXES).to_string()) } else { None }, gen_labels(r, 2, hostile_case))
         } else {
@@ -573,18 +739,33 @@ fn gen_case(r: &mut Rng, thorough: bool) -> Case {
             + 5
             + g.iter().chain(labels.iter()).map(|(k, v)| k.len() + v.len() + 2).sum::<usize>()
             + r.below(12);
-        let name = if hostile_case { r.pick_str(HOSTILE).to_string() } else { gen_name(r, max, overhead) };
-        let ts = match r.below(4) {
+        let mut name = if hostile_case { r.pick_str(HOSTILE).to_string() } else { gen_name(r, max, overhead) };
+        let ts = match r.below(6) {
             0 => Some(r.pick(&[0u64, 1, 1_700_000_000, u64::MAX]).clone()),
+            1 => Some(r.next() >> r.below(64)),
             _ => None,
         };
         let kind = *r.pick(&[b'c', b'g', b'h', b'h', b'd']);
+        let mut g = g;
+        if kind == b'h' || kind == b'd' {
+            match &last_hist {
+                Some((n, l)) if r.chance(1, 3) => {
+                    name = n.clone();
+                    labels = l.clone();
+                    if r.chance(1, 2) {
+                        g = gen_labels(r, 2, hostile_case);
+                    }
+                }
+                _ => {}
+            }
+            last_hist = Some((name.clone(), labels.clone()));
+        }
         let call = match kind {
             b'c' => Call {
                 kind,
                 name,
                 labels,
-                vals: Vals::U(*r.pick(&[0u64, 1, 2, 91919, u64::MAX, 1 << 53, 10_000_000_000])),
+                vals: Vals::U(if r.chance(1, 2) { *r.pick(&[0u64, 1, 2, 91919, u64::MAX, 1 << 53, 10_000_000_000]) } else { r.next() >> r.below(64) }),
                 ts,
                 rate: None,
                 prefix: p,
@@ -599,11 +780,16 @@ fn gen_case(r: &mut Rng, thorough: bool) -> Case {
                     3 => r.range(80, 600),
                     _ => r.range(600, 3000),
                 };
+                // a long name is repeated in every payload: keep name bytes x values (about the undrained buffer, which
+                // the list-based model copies per value) within a few hundred KB
+                let n = if name.len() > 400 { n.min((300_000 / name.len()).max(4)) } else { n };
+                if undrained_vals + n > 3000 {
+                    ops.push(Op::Drain);
+                    undrained_vals = 0;
+                }
+                undrained_vals += n;
                 let vals: Vec<f64> = (0..n).map(|_| special_f64(r)).collect();
-                let rate = match r.below(4) {
-                    0 => Some(*r.pick(&[1.0, 0.5, 0.25, 0.001, 1e-7, 0.3333333333333333, f64::NAN, 0.0])),
-                    _ => None,
-                };
+                let rate = gen_rate(r);
                 Call { kind, name, labels, vals: Vals::F(vals), ts: None, rate, prefix: p, globals: g }
             }
         };
@@ -680,6 +866,101 @@ fn corpus() -> Vec<(&'static str, Case)> {
             ],
         },
     ));
+    // the same key serialised again on the same writer with another sample rate / other global labels, back to back,
+    // across a drain, and with a counter in between: the trailer belongs to the call, not to the key
+    {
+        let h = |kind: u8, rate: Option<f64>, globals: Vec<(String, String)>, vals: Vec<f64>| {
+            Op::Write(Call {
+                kind,
+                name: "request.latency".into(),
+                labels: vec![kv("route", "index")],
+                vals: Vals::F(vals),
+                ts: None,
+                rate,
+                prefix: None,
+                globals,
+            })
+        };
+        for lp in [false, true] {
+            v.push((
+                "same key again, other sample rate / global labels",
+                Case {
+                    max: 1432,
+                    lp,
+                    ops: vec![
+                        h(b'h', Some(1.0), vec![], vec![1.5, 2.5]),
+                        h(b'h', Some(0.25), vec![], vec![3.5, 4.5]),
+                        Op::Drain,
+                        h(b'h', None, vec![kv("env", "prod")], vec![5.5]),
+                        Op::Write(simple(b'c', "requests", Vals::U(2), None)),
+                        h(b'h', Some(0.5), vec![kv("env", "dev"), kv("bare", "")], vec![6.5]),
+                        Op::Drain,
+                        h(b'd', Some(0.5), vec![], vec![7.5]),
+                        Op::Drain,
+                    ],
+                },
+            ));
+        }
+    }
+    // a flush cycle far above 64 KiB, then the next cycles on the same writer (buffer re-use after a large drain);
+    // the last cycle starts with a histogram that writes nothing
+    for lp in [true, false] {
+        let big = "n".repeat(4000);
+        let mut ops: Vec<Op> = (0..18).map(|i| Op::Write(simple(b'c', &format!("{}{}", big, i), Vals::U(i), None))).collect();
+        ops.push(Op::Drain);
+        ops.push(Op::Write(simple(b'c', "after.burst", Vals::U(7), None)));
+        ops.push(Op::Write(simple(b'h', "lat", Vals::F(vec![1.0, 2.0]), Some("svc"))));
+        ops.push(Op::Drain);
+        ops.extend((0..18).map(|i| Op::Write(simple(b'g', &format!("{}{}", big, i), Vals::F(vec![i as f64]), None))));
+        ops.push(Op::Drain);
+        ops.push(Op::Write(simple(b'h', &"x".repeat(8180), Vals::F(vec![f64::MIN, f64::MIN]), None)));
+        ops.push(Op::Write(simple(b'c', "after.second.burst", Vals::U(8), None)));
+        ops.push(Op::Drain);
+        v.push(("large flush cycle, then further cycles", Case { max: 8192, lp, ops }));
+    }
+    // bodies above 65535 bytes (third byte of the length prefix non-zero), limits at and above 2^16 / at u32::MAX
+    {
+        let name = "m".repeat(66_000);
+        let hname = "h".repeat(64_000);
+        for (max, lp) in [(100_000usize, true), (u32::MAX as usize, true), (70_000, false), (65_536, true)] {
+            v.push((
+                "payload bodies above 65535 bytes",
+                Case {
+                    max,
+                    lp,
+                    ops: vec![
+                        Op::Write(simple(b'c', &name, Vals::U(u64::MAX), None)),
+                        Op::Write(simple(b'd', &hname, Vals::F((0..200).map(|i| f64::MIN + i as f64).collect()), Some("é"))),
+                        Op::Write(simple(b'c', "small", Vals::U(1), None)),
+                        Op::Drain,
+                        Op::Write(simple(b'g', "small", Vals::F(vec![0.5]), None)),
+                        Op::Drain,
+                    ],
+                },
+            ));
+        }
+    }
+    // the limit must fit a u32: `PayloadWriter::new` asserts it (the builder refuses such a limit, see `statsd cfg`)
+    if usize::BITS > 32 {
+        for lp in [false, true] {
+            v.push(("limit 2^32: new() asserts", Case { max: 1usize << 32, lp, ops: vec![Op::Drain] }));
+        }
+    }
+    // multi-byte global prefix near the limit: the minimum length counts bytes, not characters
+    for max in 24..=40usize {
+        v.push((
+            "multi-byte prefix near the limit",
+            Case {
+                max,
+                lp: max % 2 == 1,
+                ops: vec![
+                    Op::Write(simple(b'h', "lat", Vals::F((0..12).map(|i| i as f64 + 0.25).collect()), Some("日本語ééé"))),
+                    Op::Write(simple(b'c', "n", Vals::U(3), Some("日本語ééé"))),
+                    Op::Drain,
+                ],
+            },
+        ));
+    }
     // tiny limits
     for max in [0usize, 1, 4, 5, 6] {
         for lp in [false, true] {
@@ -799,56 +1080,118 @@ pub fn run(cfg: &Cfg, out: &mut Out) {
         out.case(&format!("state-flush seed={} i={}", cfg.seed, i));
         run_state_case(out, &mut r);
     }
+    // stream C: configuration — builder validation against the model for every transport, and whole exporters
+    // built through the public builder, observed on real unix-stream / unix-datagram / UDP sockets
+    run_config_stream(cfg, out);
     std::panic::set_hook(prev);
 }
 
-/// `State::flush` into a long-lived writer over several flush cycles; every drained payload must be a datagram
-/// within the limit and correctly framed, every recorded histogram value must come out exactly once or be
-/// accounted as dropped, counters/gauges must carry the recorded value and the configured prefix / global tags.
+/// the tag section `|#g1,g2,k:v` of a metric with global labels `globals` and own labels `own`
+fn tag_section(globals: &[(String, String)], own: &[(String, String)]) -> String {
+    let t: Vec<String> = globals.iter().chain(own.iter()).map(|(k, v)| if v.is_empty() { k.clone() } else { format!("{}:{}", k, v) }).collect();
+    if t.is_empty() {
+        String::new()
+    } else {
+        format!("|#{}", t.join(","))
+    }
+}
+
+/// the name `State::flush` must put on the wire: the global prefix applies to everything except the exporter's own
+/// `datadog.dogstatsd.client…` telemetry
+fn wire_name(prefix: &Option<String>, name: &str) -> String {
+    match prefix {
+        Some(p) if !name.starts_with("datadog.dogstatsd.client") => format!("{}.{}", p, name),
+        _ => name.to_string(),
+    }
+}
+
+/// the histogram values that can be sent at all for a message whose value-less length is `min_len`
+fn sendable(max: usize, min_len: usize, vals: &[u64]) -> Vec<u64> {
+    if min_len + 2 > max {
+        return vec![];
+    }
+    vals.iter().copied().filter(|b| min_len + ryu_text(f64::from_bits(*b)).len() + 1 <= max).collect()
+}
+
+static KVALS: [&str; 2] = ["a", "b"];
+const STATE_NAMES: &[&str] =
+    &["reqs", "lat", "datadog.dogstatsd.client.x", "q", "datadog.other", "xdatadog.dogstatsd.client", "datadog.dogstatsd.clientele", "Ωq"];
+
+/// `State::flush` into a long-lived writer over several flush cycles.  Everything the flush emits is predicted
+/// from what was recorded: every datagram must be one of the expected counter / gauge / histogram messages (exact
+/// name incl. the prefix rule, exact tags = global then own, exact counter sum / latest gauge value, histogram or
+/// distribution type, sample rate present iff sampling is on and equal to reservoir/recorded), within the limit and
+/// correctly framed; every metric whose message fits must be there; the histogram values on the wire are exactly
+/// the recorded ones that can fit (unsampled) or a sub-multiset of reservoir size (sampled); and the point /
+/// context / serializer-failure counters the flush reports must agree with what was emitted.
 fn run_state_case(out: &mut Out, r: &mut Rng) {
     use metrics::{Key as MKey, Level, Metadata, Recorder};
-    use std::collections::BTreeMap;
+    use std::collections::{BTreeMap, BTreeSet};
     static META: Metadata<'static> = Metadata::new("c09", Level::INFO, None);
+    type Id = (String, String); // (metric name, value of its label `k`)
     let max = *r.pick(&[24usize, 40, 64, 100, 200, 1432, 8192]);
     let lp = r.chance(1, 2);
-    let prefix = if r.chance(1, 2) { Some(r.pick_str(&["myservice", "p", "svc.eu"]).to_string()) } else { None };
+    let prefix = if r.chance(1, 2) { Some(r.pick_str(&["myservice", "p", "svc.eu", "é"]).to_string()) } else { None };
     let globals: Vec<(String, String)> = (0..r.below(3)).map(|i| (format!("g{}", i), r.pick_str(&["", "x", "eu-west-1"]).to_string())).collect();
     let as_dist = r.chance(1, 2);
+    let aggressive = r.chance(1, 2);
+    let sampling = r.chance(1, 3);
+    let reservoir = *r.pick(&[4usize, 16, 64]);
     let mut driver = StateDriver::new(
-        r.chance(1, 2),
-        false,
-        1024,
+        aggressive,
+        sampling,
+        reservoir,
         as_dist,
         globals.iter().map(|(k, v)| Label::new(k.clone(), v.clone())).collect(),
         prefix.clone(),
     );
     let recorder = driver.recorder();
     let mut writer = Writer::new(max, lp);
-    let names = ["reqs", "lat", "datadog.dogstatsd.client.x", "q"];
     out.count(&format!("state.max={}", max));
+    out.count(if sampling { "state.sampling=on" } else { "state.sampling=off" });
+    let ctx = format!("State::flush max={} lp={} prefix={:?} globals={:?} dist={} aggressive={} sampling={}/{}", max, lp, prefix, globals, as_dist, aggressive, sampling, reservoir);
+    let mut reg_gauges: BTreeMap<Id, u64> = BTreeMap::new(); // latest value bits
+    let mut reg_counters: BTreeSet<Id> = BTreeSet::new();
+    let mut names_seen: BTreeSet<String> = BTreeSet::new();
+    let ts_sec = if aggressive { "|T1700000000" } else { "" }; // only its length matters (10 digits until 2286)
     for _cycle in 0..r.range(1, 3) {
-        // record
-        let mut expect_hist: BTreeMap<String, Vec<u64>> = BTreeMap::new(); // full name -> value bits
-        let mut n_hist_points = 0u64;
-        for _ in 0..r.range(1, 6) {
-            let name = *r.pick(&names);
-            let key = MKey::from_parts(name, vec![Label::new("k", *r.pick(&["a", "b"]))]);
+        let mut c_sum: BTreeMap<Id, (u64, u64)> = BTreeMap::new(); // sum, number of increments
+        let mut g_sets: BTreeMap<Id, u64> = BTreeMap::new(); // number of sets
+        let mut h_rec: BTreeMap<Id, Vec<u64>> = BTreeMap::new();
+        for _ in 0..r.range(1, 7) {
+            let name = r.pick_str(STATE_NAMES);
+            let kval = r.pick_str(&["a", "b"]);
+            let id: Id = (name.to_string(), kval.to_string());
+            names_seen.insert(name.to_string());
+            let key = MKey::from_parts(name, vec![Label::new("k", kval)]);
             match r.below(3) {
-                0 => recorder.register_counter(&key, &META).increment(r.below(1000) as u64),
-                1 => recorder.register_gauge(&key, &META).set(special_f64(r)),
+                0 => {
+                    let c = recorder.register_counter(&key, &META);
+                    reg_counters.insert(id.clone());
+                    for _ in 0..r.range(1, 3) {
+                        let d = r.below(1000) as u64;
+                        c.increment(d);
+                        let e = c_sum.entry(id.clone()).or_insert((0, 0));
+                        e.0 += d;
+                        e.1 += 1;
+                    }
+                }
+                1 => {
+                    let g = recorder.register_gauge(&key, &META);
+                    for _ in 0..r.range(1, 3) {
+                        let v = special_f64(r);
+                        g.set(v);
+                        reg_gauges.insert(id.clone(), v.to_bits());
+                        *g_sets.entry(id.clone()).or_insert(0) += 1;
+                    }
+                }
                 _ => {
                     let h = recorder.register_histogram(&key, &META);
-                    let full = if name.starts_with("datadog.dogstatsd.client") || prefix.is_none() {
-                        name.to_string()
-                    } else {
-                        format!("{}.{}", prefix.as_ref().unwrap(), name)
-                    };
                     for _ in 0..r.range(1, 200) {
                         let v = special_f64(r);
                         let v = if v.is_nan() { 0.5 } else { v };
                         h.record(v);
-                        expect_hist.entry(full.clone()).or_default().push(v.to_bits());
-                        n_hist_points += 1;
+                        h_rec.entry(id.clone()).or_default().push(v.to_bits());
                     }
                 }
             }
@@ -857,85 +1200,556 @@ fn run_state_case(out: &mut Out, r: &mut Rng) {
         let counts = match res {
             Ok(c) => c,
             Err(_) => {
-                out.oracle_fail("serialisation panicked", &format!("State::flush max={} lp={} prefix={:?}", max, lp, prefix));
+                out.oracle_fail("serialisation panicked", &ctx);
                 return;
             }
         };
         let slices = writer.drain();
         out.count_n("state.payloads", slices.len() as u64);
-        let mut got_hist: BTreeMap<String, Vec<u64>> = BTreeMap::new();
-        let mut stream_ok = true;
+        let mut got_c: BTreeMap<Id, u64> = BTreeMap::new();
+        let mut got_g: BTreeMap<Id, u64> = BTreeMap::new();
+        let mut got_h: BTreeMap<Id, Vec<u64>> = BTreeMap::new();
+        let mut got_rate: BTreeMap<Id, String> = BTreeMap::new();
+        let mut cross_budget = 3usize;
         for s in &slices {
             let body: &[u8] = if lp {
                 if s.len() < 4 || u32::from_le_bytes([s[0], s[1], s[2], s[3]]) as usize != s.len() - 4 {
-                    out.oracle_fail("length-prefixed stream is mis-framed", &format!("State::flush max={} slice={}", max, hex(s)));
-                    stream_ok = false;
-                    break;
+                    out.oracle_fail("length-prefixed stream is mis-framed", &format!("{} slice={}", ctx, hex(s)));
+                    return;
                 }
                 &s[4..]
             } else {
                 &s[..]
             };
             if body.len() > max {
-                out.oracle_fail("payload longer than the configured maximum", &format!("State::flush max={} len={}", max, body.len()));
+                out.oracle_fail("payload longer than the configured maximum", &format!("{} len={}", ctx, body.len()));
             }
-            match parse_datagram(body) {
+            let d = match parse_datagram(body) {
                 Err(e) => {
-                    out.oracle_fail("emitted payload is not a DogStatsD datagram", &format!("State::flush {} :: {}", e, hex(body)));
-                    stream_ok = false;
+                    out.oracle_fail("emitted payload is not a DogStatsD datagram", &format!("{} :: {} :: {}", ctx, e, hex(body)));
+                    return;
                 }
-                Ok(d) => {
-                    let exp_prefixed = !d.name.contains("datadog.dogstatsd.client") && prefix.is_some();
-                    let has_prefix = prefix.as_ref().map_or(false, |p| d.name.starts_with(&format!("{}.", p)));
-                    let tags = d.tags.clone().unwrap_or_default();
-                    let exp_global: Vec<String> = globals.iter().map(|(k, v)| if v.is_empty() { k.clone() } else { format!("{}:{}", k, v) }).collect();
-                    if exp_prefixed != has_prefix || tags.len() != exp_global.len() + 1 || tags[..exp_global.len()] != exp_global[..] {
-                        out.oracle_fail("datagram does not carry the call's name/type/rate/tags/timestamp", &format!("State::flush {:?} prefix={:?} globals={:?}", d, prefix, globals));
+                Ok(d) => d,
+            };
+            cross_read(out, &mut cross_budget, body, &d);
+            // which recorded metric is this?
+            let tags = d.tags.clone().unwrap_or_default();
+            let id: Option<Id> = STATE_NAMES.iter().flat_map(|n| KVALS.iter().map(move |k| (n.to_string(), k.to_string()))).find(|(n, k)| {
+                d.name == wire_name(&prefix, n) && tag_section(&globals, &[("k".to_string(), k.clone())]) == if tags.is_empty() { String::new() } else { format!("|#{}", tags.join(",")) }
+            });
+            let bad = |out: &mut Out, why: &str| {
+                out.oracle_fail("datagram does not carry the call's name/type/rate/tags/timestamp", &format!("{} :: {} :: {:?}", ctx, why, d));
+            };
+            let id = match id {
+                Some(id) => id,
+                None => {
+                    bad(out, "no recorded metric has this (prefixed) name with these tags (global labels first, then its own)");
+                    return;
+                }
+            };
+            let ts_ok = |d: &Datagram| d.ts.is_some() == aggressive;
+            match d.ty.as_str() {
+                "c" => {
+                    let v = d.values[0].parse::<u64>();
+                    if d.values.len() != 1 || v.is_err() || d.rate.is_some() || !ts_ok(&d) || !reg_counters.contains(&id) || got_c.insert(id.clone(), *v.as_ref().unwrap_or(&0)).is_some() {
+                        bad(out, "counter message malformed, unknown or repeated within one flush");
+                        return;
                     }
-                    if d.ty == "h" || d.ty == "d" {
-                        if (d.ty == "d") != as_dist {
-                            out.oracle_fail("datagram does not carry the call's name/type/rate/tags/timestamp", &format!("State::flush histogram type {:?}", d));
-                        }
-                        for v in &d.values {
-                            got_hist.entry(d.name.clone()).or_default().push(v.parse::<f64>().unwrap().to_bits());
+                    if v.unwrap() != c_sum.get(&id).map_or(0, |e| e.0) {
+                        out.oracle_fail("counter value does not read back", &format!("{} :: {:?} expected sum {:?}", ctx, d, c_sum.get(&id)));
+                    }
+                }
+                "g" => {
+                    let exp = reg_gauges.get(&id).copied();
+                    if d.values.len() != 1 || d.rate.is_some() || !ts_ok(&d) || exp.is_none() || got_g.insert(id.clone(), 0).is_some() {
+                        bad(out, "gauge message malformed, unknown or repeated within one flush");
+                        return;
+                    }
+                    if !same_f64(&d.values[0], f64::from_bits(exp.unwrap())) {
+                        out.oracle_fail("emitted values are not the input values in order at round-trip precision", &format!("{} :: gauge {:?} expected {:?}", ctx, d, f64::from_bits(exp.unwrap())));
+                    }
+                }
+                "h" | "d" => {
+                    if (d.ty == "d") != as_dist || d.ts.is_some() || d.rate.is_some() != sampling || !h_rec.contains_key(&id) {
+                        bad(out, "histogram message: wrong type for the configuration, a timestamp, a sample rate without sampling (or none with it), or nothing was recorded for it");
+                        return;
+                    }
+                    if let Some(rt) = &d.rate {
+                        if let Some(prev) = got_rate.insert(id.clone(), rt.clone()) {
+                            if &prev != rt {
+                                bad(out, "two payloads of one sampled histogram flush carry different sample rates");
+                            }
                         }
                     }
+                    for v in &d.values {
+                        got_h.entry(id.clone()).or_default().push(v.parse::<f64>().unwrap().to_bits());
+                    }
+                }
+                _ => {
+                    bad(out, "unexpected type");
+                    return;
                 }
             }
         }
-        if !stream_ok {
-            return;
+        // completeness: every metric whose message fits is on the wire
+        let own = |id: &Id| vec![("k".to_string(), id.1.clone())];
+        let mut failed_scalars = 0u64;
+        let mut failed_counters = 0u64;
+        let mut zero_counter_too_long = false;
+        let mut exp_counter_points = 0u64;
+        for id in &reg_counters {
+            let (sum, n) = c_sum.get(id).copied().unwrap_or((0, 0));
+            let text = format!("{}:{}|c{}{}\n", wire_name(&prefix, &id.0), sum, tag_section(&globals, &own(id)), ts_sec);
+            let fits = text.len() <= max;
+            if got_c.contains_key(id) {
+                exp_counter_points += n;
+            }
+            if sum != 0 {
+                if fits != got_c.contains_key(id) {
+                    out.oracle_fail("points emitted + points dropped differs from the number of input points", &format!("{} :: counter {:?} sum {} (message of {} bytes) {}", ctx, id, sum, text.len(), if fits { "fits but was not emitted" } else { "cannot fit but was emitted" }));
+                }
+                if !fits {
+                    failed_scalars += 1;
+                    failed_counters += 1;
+                }
+            } else if !fits {
+                zero_counter_too_long = true;
+            }
         }
-        // every recorded histogram value is emitted exactly once or accounted as dropped
-        let mut emitted = 0u64;
-        let mut sub_ok = true;
-        for (name, got) in got_hist.iter_mut() {
-            emitted += got.len() as u64;
-            let mut exp = expect_hist.get(name).cloned().unwrap_or_default();
-            exp.sort();
+        let mut exp_gauge_points = 0u64;
+        for (id, bits) in &reg_gauges {
+            let text = format!("{}:{}|g{}{}\n", wire_name(&prefix, &id.0), ryu_text(f64::from_bits(*bits)), tag_section(&globals, &own(id)), ts_sec);
+            let fits = text.len() <= max;
+            if fits != got_g.contains_key(id) {
+                out.oracle_fail("points emitted + points dropped differs from the number of input points", &format!("{} :: gauge {:?} (message of {} bytes) {}", ctx, id, text.len(), if fits { "fits but was not emitted" } else { "cannot fit but was emitted" }));
+            }
+            if fits {
+                exp_gauge_points += g_sets.get(id).copied().unwrap_or(0);
+            } else {
+                failed_scalars += 1;
+            }
+        }
+        let mut exp_hist_points = 0u64;
+        let mut hist_with_drops = 0u64;
+        for (id, rec) in &h_rec {
+            let mut got = got_h.get(id).cloned().unwrap_or_default();
             got.sort();
-            // got must be a sub-multiset of exp
-            let mut i = 0;
-            for g in got.iter() {
-                while i < exp.len() && exp[i] < *g {
+            let n = rec.len();
+            let (rate, rate_text): (f64, String) = if !sampling {
+                (1.0, String::new())
+            } else if n <= reservoir {
+                (1.0, format!("|@{}", ryu_text(1.0)))
+            } else {
+                let rt = reservoir as f64 / n as f64;
+                (rt, format!("|@{}", ryu_text(rt)))
+            };
+            if sampling {
+                if let Some(rt) = got_rate.get(id) {
+                    if !same_f64(rt, rate) {
+                        out.oracle_fail("datagram does not carry the call's name/type/rate/tags/timestamp", &format!("{} :: histogram {:?}: {} values recorded, reservoir {}, sample rate on the wire {} expected {}", ctx, id, n, reservoir, rt, rate));
+                    }
+                }
+            }
+            let min_len = wire_name(&prefix, &id.0).len() + rate_text.len() + tag_section(&globals, &own(id)).len() + 1 + 2;
+            let mut all = rec.clone();
+            all.sort();
+            if !sampling || n <= reservoir {
+                let mut exp = sendable(max, min_len, rec);
+                exp.sort();
+                if exp != got {
+                    out.oracle_fail("emitted values are not the input values in order at round-trip precision", &format!("{} :: histogram {:?}: recorded {} values, {} can be sent, {} on the wire (or different ones)", ctx, id, n, exp.len(), got.len()));
+                }
+                if exp.len() < n {
+                    hist_with_drops += 1;
+                }
+            } else {
+                // a sample of exactly `reservoir` recorded values was handed to the writer; those that fit are on the wire
+                let mut i = 0;
+                let mut sub = true;
+                for g in &got {
+                    while i < all.len() && all[i] < *g {
+                        i += 1;
+                    }
+                    if i == all.len() || all[i] != *g {
+                        sub = false;
+                        break;
+                    }
                     i += 1;
                 }
-                if i == exp.len() || exp[i] != *g {
-                    sub_ok = false;
-                    break;
+                let fit_all = sendable(max, min_len, rec).len() == n;
+                if !sub || got.len() > reservoir || (fit_all && got.len() != reservoir) {
+                    out.oracle_fail("emitted values are not the input values in order at round-trip precision", &format!("{} :: sampled histogram {:?}: recorded {}, reservoir {}, on the wire {} (not a sample of the recorded values of reservoir size)", ctx, id, n, reservoir, got.len()));
                 }
-                i += 1;
+                if got.len() < reservoir {
+                    hist_with_drops += 1;
+                }
+            }
+            exp_hist_points += (got.len() as f64 / rate) as u64;
+        }
+        for id in got_h.keys() {
+            if !h_rec.contains_key(id) {
+                out.oracle_fail("emitted values are not the input values in order at round-trip precision", &format!("{} :: histogram {:?} emitted without recorded values", ctx, id));
             }
         }
-        if !sub_ok {
-            out.oracle_fail("emitted values are not the input values in order at round-trip precision", &format!("State::flush max={} lp={}: a histogram value was emitted that was not recorded (or twice)", max, lp));
+        // what the flush reports
+        let mut report = vec![];
+        if counts.histogram_points != exp_hist_points {
+            report.push(format!("histogram_points={} expected {}", counts.histogram_points, exp_hist_points));
         }
-        if emitted != counts.histogram_points || emitted > n_hist_points || (emitted < n_hist_points && counts.packets_dropped_serializer == 0) {
-            out.oracle_fail(
-                "points emitted + points dropped differs from the number of input points",
-                &format!("State::flush max={} lp={} recorded={} emitted={} reported histogram_points={} serializer failures={}", max, lp, n_hist_points, emitted, counts.histogram_points, counts.packets_dropped_serializer),
-            );
+        if counts.gauge_points != exp_gauge_points {
+            report.push(format!("gauge_points={} expected {}", counts.gauge_points, exp_gauge_points));
+        }
+        if counts.counter_points != exp_counter_points {
+            report.push(format!("counter_points={} expected {}", counts.counter_points, exp_counter_points));
+        }
+        if counts.gauge_contexts != reg_gauges.len() as u64 {
+            report.push(format!("gauge_contexts={} expected {}", counts.gauge_contexts, reg_gauges.len()));
+        }
+        if counts.histogram_contexts != h_rec.len() as u64 {
+            report.push(format!("histogram_contexts={} expected {}", counts.histogram_contexts, h_rec.len()));
+        }
+        if counts.counter_contexts < got_c.len() as u64 || (!zero_counter_too_long && counts.counter_contexts != got_c.len() as u64 + failed_counters) {
+            report.push(format!("counter_contexts={} with {} counter messages emitted", counts.counter_contexts, got_c.len()));
+        }
+        let lower = failed_scalars + hist_with_drops;
+        if counts.packets_dropped_serializer < lower || (lower == 0 && !zero_counter_too_long && counts.packets_dropped_serializer != 0) {
+            report.push(format!("packets_dropped_serializer={} with {} metrics that could not be serialised", counts.packets_dropped_serializer, lower));
+        }
+        if !report.is_empty() {
+            out.oracle_fail("points emitted + points dropped differs from the number of input points", &format!("{} :: reported counts do not match what was emitted: {}", ctx, report.join("; ")));
         }
         out.nontrivial();
     }
+    // the prefix rule, name by name, against the model (`flushPrefix`): observed = whether the wire name carried it
+    for n in &names_seen {
+        let observed = if wire_name(&prefix, n) == *n { "~".to_string() } else { hexs(prefix.as_ref().unwrap()) };
+        out.op(&format!("statsd fprefix {} {}", opt_hexs(prefix.as_deref()), hexs(n)), &observed);
+    }
+}
+
+// ---------------------------------------------------------------------------------------------
+// stream C: configuration (builder validation, framing-mode selection, defaults) and end to end
+
+fn addr_for(transport: &str, path: &str) -> String {
+    match transport {
+        "udp" => "127.0.0.1:9".to_string(),
+        "unixgram" => format!("unixgram://{}", path),
+        _ => format!("unix://{}", path),
+    }
+}
+
+fn run_config_stream(cfg: &Cfg, out: &mut Out) {
+    use metrics_exporter_dogstatsd::DogStatsDBuilder;
+    // (1) validation: the real builder's verdict for every transport and a spread of limits, against the model
+    out.case("config validation");
+    let mut r = Rng::new(cfg.seed ^ 0xC09C);
+    let mut limits: Vec<Option<usize>> = vec![None];
+    for m in [0usize, 1, 1432, 8192, 65_526, 65_527, 65_528, 65_535, 65_536, 1 << 20, u32::MAX as usize - 1, u32::MAX as usize] {
+        limits.push(Some(m));
+    }
+    if usize::BITS > 32 {
+        for m in [(1u64 << 32) as usize, (1u64 << 32) as usize + 1, usize::MAX] {
+            limits.push(Some(m));
+        }
+    }
+    for _ in 0..6 {
+        limits.push(Some((r.next() >> r.below(64)) as usize));
+    }
+    for t in ["udp", "unixgram", "unix"] {
+        for m in &limits {
+            let b = DogStatsDBuilder::default().with_remote_address(addr_for(t, "/nonexistent/c09.sock")).expect("address parses");
+            let verdict = match m {
+                None => "ok".to_string(), // nothing to validate before build(); build() itself is exercised below
+                Some(m) => match b.with_maximum_payload_length(*m) {
+                    Ok(_) => "ok".to_string(),
+                    Err(_) => "err".to_string(),
+                },
+            };
+            out.count(&format!("cfg.validate.{}", verdict));
+            out.op(&format!("statsd validate {} {}", t, m.map_or("~".to_string(), |m| m.to_string())), &verdict);
+        }
+    }
+    out.nontrivial();
+    // (2) end to end: exporters built through the public builder, one flush cycle observed on a real socket
+    let n = if cfg.thorough { 12 } else { 4 };
+    for i in 0..n {
+        let mut rr = Rng::new(cfg.seed ^ 0xC09E).fork(i as u64);
+        let transport = ["unix", "unixgram", "udp", "unix"][i % 4];
+        out.case(&format!("e2e {} seed={} i={}", transport, cfg.seed, i));
+        run_e2e_case(out, &mut rr, transport, i);
+    }
+}
+
+fn run_e2e_case(out: &mut Out, r: &mut Rng, transport: &str, idx: usize) {
+    use metrics::{Key as MKey, Level, Metadata, Recorder};
+    use metrics_exporter_dogstatsd::DogStatsDBuilder;
+    use std::io::Read;
+    use std::time::{Duration, Instant};
+    static META: Metadata<'static> = Metadata::new("c09", Level::INFO, None);
+    let dir = std::env::temp_dir().join(format!("mv-c09-{}-{}", std::process::id(), idx));
+    let _ = std::fs::remove_dir_all(&dir);
+    std::fs::create_dir_all(&dir).unwrap();
+    let path = dir.join("s.sock");
+    let path_s = path.to_str().unwrap().to_string();
+    let configured: Option<usize> = match r.below(3) {
+        0 => None,
+        1 => Some(*r.pick(&[64usize, 200, 1432, 4000])),
+        _ => None,
+    };
+    // documented: "Defaults to 1432 bytes for UDP, and 8192 bytes for Unix domain sockets"
+    let max = configured.unwrap_or(if transport == "udp" { 1432 } else { 8192 });
+    let prefix = if r.chance(1, 2) { Some(r.pick_str(&["svc", "é"]).to_string()) } else { None };
+    let globals: Vec<(String, String)> = (0..r.below(3)).map(|i| (format!("g{}", i), r.pick_str(&["", "x"]).to_string())).collect();
+    let as_dist = r.chance(1, 2);
+    // sockets first (the forwarder connects lazily at its first flush)
+    let stream_l = if transport == "unix" { Some(std::os::unix::net::UnixListener::bind(&path).unwrap()) } else { None };
+    let dgram = if transport == "unixgram" { Some(std::os::unix::net::UnixDatagram::bind(&path).unwrap()) } else { None };
+    let udp = if transport == "udp" { Some(std::net::UdpSocket::bind("127.0.0.1:0").unwrap()) } else { None };
+    let addr = match &udp {
+        Some(u) => format!("127.0.0.1:{}", u.local_addr().unwrap().port()),
+        None => addr_for(transport, &path_s),
+    };
+    let mut b = DogStatsDBuilder::default()
+        .with_remote_address(&addr)
+        .expect("address parses")
+        .with_flush_interval(Duration::from_millis(150))
+        .with_telemetry(false)
+        .with_histogram_sampling(false)
+        .send_histograms_as_distributions(as_dist)
+        .with_global_labels(globals.iter().map(|(k, v)| Label::new(k.clone(), v.clone())).collect());
+    if let Some(p) = &prefix {
+        b = b.set_global_prefix(p.clone());
+    }
+    if let Some(m) = configured {
+        b = b.with_maximum_payload_length(m).expect("valid limit");
+    }
+    let recorder = b.build().expect("exporter builds");
+    // record: one histogram with enough values for several payloads, one counter, one gauge
+    let own = vec![("k".to_string(), "a".to_string())];
+    let hkey = MKey::from_parts("lat", vec![Label::new("k", "a")]);
+    let n_vals = (max / 4).max(40).min(4000);
+    let mut rec: Vec<u64> = vec![];
+    {
+        let h = recorder.register_histogram(&hkey, &META);
+        for _ in 0..n_vals {
+            let v = match r.below(3) {
+                0 => (r.below(100_000) as f64) / 8.0,
+                1 => r.below(1000) as f64,
+                _ => long_f64(r),
+            };
+            h.record(v);
+            rec.push(v.to_bits());
+        }
+        recorder.register_counter(&MKey::from_parts("reqs", vec![Label::new("k", "a")]), &META).increment(41);
+        recorder.register_gauge(&MKey::from_parts("datadog.dogstatsd.client.depth", vec![Label::new("k", "a")]), &META).set(2.5);
+    }
+    let tagsec = tag_section(&globals, &own);
+    // limit probes: two gauges whose messages are exactly `max` and `max + 1` bytes long — the first must arrive,
+    // the second must not (an unsampled histogram is handed over in blocks of 64 values, so how full its payloads
+    // are says nothing about the limit)
+    let probe_overhead = wire_name(&prefix, "").len() + ":1.5|g".len() + tagsec.len() + 1;
+    let probes = max >= probe_overhead + 4;
+    let fit_name = format!("f{}", "i".repeat(max.saturating_sub(probe_overhead + 1)));
+    let nofit_name = format!("n{}", "o".repeat(max.saturating_sub(probe_overhead)));
+    if probes {
+        recorder.register_gauge(&MKey::from_parts(fit_name.clone(), vec![Label::new("k", "a")]), &META).set(1.5);
+        recorder.register_gauge(&MKey::from_parts(nofit_name.clone(), vec![Label::new("k", "a")]), &META).set(1.5);
+    }
+    let fit_wire = wire_name(&prefix, &fit_name);
+    let nofit_wire = wire_name(&prefix, &nofit_name);
+    let hname = wire_name(&prefix, "lat");
+    let min_len = hname.len() + tagsec.len() + 1 + 2;
+    let mut expected = sendable(max, min_len, &rec);
+    expected.sort();
+    let counter_text = format!("{}:41|c{}\n", wire_name(&prefix, "reqs"), tagsec);
+    let gauge_text = format!("datadog.dogstatsd.client.depth:2.5|g{}\n", tagsec);
+    let want_counter = counter_text.len() <= max;
+    let want_gauge = gauge_text.len() <= max;
+    // read until everything expected has arrived (generous deadline: the forwarder flushes every 150 ms and splays
+    // its payloads over one interval; 30 s only ever matters on a stalled machine)
+    let deadline = Instant::now() + Duration::from_secs(30);
+    let mut bodies: Vec<Vec<u8>> = vec![];
+    let mut misframed: Option<String> = None;
+    let complete = |bodies: &Vec<Vec<u8>>| -> bool {
+        let mut n = 0usize;
+        let (mut c, mut g, mut f) = (false, false, false);
+        for b in bodies {
+            if let Ok(d) = parse_datagram(b) {
+                if d.ty == "h" || d.ty == "d" {
+                    n += d.values.len();
+                } else if d.ty == "c" && d.values[0] == "41" {
+                    c = true;
+                } else if d.ty == "g" && d.name == fit_wire {
+                    f = true;
+                } else if d.ty == "g" {
+                    g = true;
+                }
+            }
+        }
+        n >= expected.len() && (c || !want_counter) && (g || !want_gauge) && (f || !probes)
+    };
+    let lp_observed: bool;
+    if let Some(l) = &stream_l {
+        l.set_nonblocking(true).unwrap();
+        let mut conn = None;
+        while Instant::now() < deadline {
+            match l.accept() {
+                Ok((c, _)) => {
+                    conn = Some(c);
+                    break;
+                }
+                Err(_) => std::thread::sleep(Duration::from_millis(5)),
+            }
+        }
+        let mut buf: Vec<u8> = vec![];
+        if let Some(mut c) = conn {
+            c.set_nonblocking(false).unwrap();
+            c.set_read_timeout(Some(Duration::from_millis(200))).unwrap();
+            let mut chunk = [0u8; 65536];
+            'outer: while Instant::now() < deadline {
+                match c.read(&mut chunk) {
+                    Ok(0) => break,
+                    Ok(k) => buf.extend_from_slice(&chunk[..k]),
+                    Err(_) => {}
+                }
+                // de-frame what is complete so far
+                loop {
+                    if buf.len() < 4 {
+                        break;
+                    }
+                    let len = u32::from_le_bytes([buf[0], buf[1], buf[2], buf[3]]) as usize;
+                    if len > max {
+                        misframed = Some(format!("frame header announces {} bytes with a limit of {}; stream so far: {}", len, max, hex(&buf[..buf.len().min(120)])));
+                        break 'outer;
+                    }
+                    if buf.len() < 4 + len {
+                        break;
+                    }
+                    bodies.push(buf[4..4 + len].to_vec());
+                    buf.drain(..4 + len);
+                }
+                if complete(&bodies) {
+                    break;
+                }
+            }
+        }
+        lp_observed = misframed.is_none();
+    } else {
+        let mut chunk = vec![0u8; 1 << 17];
+        let recv = |chunk: &mut [u8]| -> Option<usize> {
+            if let Some(d) = &dgram {
+                d.set_read_timeout(Some(Duration::from_millis(200))).unwrap();
+                d.recv(chunk).ok()
+            } else {
+                let u = udp.as_ref().unwrap();
+                u.set_read_timeout(Some(Duration::from_millis(200))).unwrap();
+                u.recv(chunk).ok()
+            }
+        };
+        while Instant::now() < deadline {
+            if let Some(k) = recv(&mut chunk) {
+                bodies.push(chunk[..k].to_vec());
+                if complete(&bodies) {
+                    break;
+                }
+            }
+        }
+        // a datagram that starts with its own little-endian length would be a length-prefixed one
+        lp_observed = !bodies.is_empty()
+            && bodies.iter().all(|b| b.len() >= 4 && u32::from_le_bytes([b[0], b[1], b[2], b[3]]) as usize == b.len() - 4);
+        if lp_observed {
+            misframed = Some(format!("datagram transport carries length-prefixed payloads: {}", hex(&bodies[0][..bodies[0].len().min(80)])));
+        }
+    }
+    let _ = std::fs::remove_dir_all(&dir);
+    let ctx = format!("e2e {} configured max={:?} (effective {}) prefix={:?} globals={:?} dist={}", transport, configured, max, prefix, globals, as_dist);
+    out.count(&format!("e2e.{}", transport));
+    out.count_n("e2e.payloads", bodies.len() as u64);
+    // oracles on what arrived
+    let largest_nonlast = 0usize;
+    let mut largest = 0usize;
+    let mut got: Vec<u64> = vec![];
+    let (mut saw_c, mut saw_g) = (false, false);
+    let (mut saw_fit, mut saw_nofit) = (false, false);
+    let mut hist_sizes: Vec<usize> = vec![];
+    let mut ok = misframed.is_none();
+    if let Some(m) = &misframed {
+        out.oracle_fail("length-prefixed stream is mis-framed", &format!("{} :: {}", ctx, m));
+    }
+    if ok {
+        for b in &bodies {
+            largest = largest.max(b.len());
+            if b.len() > max {
+                out.oracle_fail("payload longer than the configured maximum", &format!("{} len={}", ctx, b.len()));
+            }
+            match parse_datagram(b) {
+                Err(e) => {
+                    out.oracle_fail("emitted payload is not a DogStatsD datagram", &format!("{} :: {} :: {}", ctx, e, hex(&b[..b.len().min(200)])));
+                    ok = false;
+                    break;
+                }
+                Ok(d) => {
+                    let tags = d.tags.clone().map_or(String::new(), |t| format!("|#{}", t.join(",")));
+                    let good = match d.ty.as_str() {
+                        "h" | "d" => {
+                            hist_sizes.push(b.len());
+                            got.extend(d.values.iter().map(|v| v.parse::<f64>().unwrap().to_bits()));
+                            d.name == hname && tags == tagsec && (d.ty == "d") == as_dist && d.rate.is_none() && d.ts.is_none()
+                        }
+                        "c" => {
+                            saw_c |= d.values[0] == "41";
+                            d.name == wire_name(&prefix, "reqs") && tags == tagsec && (d.values[0] == "41" || d.values[0] == "0") && d.ts.is_none()
+                        }
+                        "g" if probes && d.name == fit_wire => {
+                            saw_fit = true;
+                            tags == tagsec && d.values[0] == "1.5" && b.len() == max
+                        }
+                        "g" if probes && d.name == nofit_wire => {
+                            saw_nofit = true;
+                            false
+                        }
+                        "g" => {
+                            saw_g = true;
+                            d.name == "datadog.dogstatsd.client.depth" && tags == tagsec && d.values[0] == "2.5"
+                        }
+                        _ => false,
+                    };
+                    if !good {
+                        out.oracle_fail("datagram does not carry the call's name/type/rate/tags/timestamp", &format!("{} :: {:?}", ctx, d));
+                        ok = false;
+                        break;
+                    }
+                }
+            }
+        }
+    }
+    if ok {
+        got.sort();
+        if got != expected || saw_c != want_counter || saw_g != want_gauge {
+            // UDP may lose datagrams; the stream and the unix datagram socket may not
+            let lossy = transport == "udp" && got.len() <= expected.len();
+            if !lossy {
+                out.oracle_fail(
+                    "points emitted + points dropped differs from the number of input points",
+                    &format!("{} :: recorded {} histogram values, {} can be sent, {} arrived (or different ones); counter arrived={} expected={}; gauge arrived={} expected={}", ctx, rec.len(), expected.len(), got.len(), saw_c, want_counter, saw_g, want_gauge),
+                );
+            } else {
+                out.count("e2e.udp_loss");
+            }
+        }
+    }
+    // the model's view of this configuration: the limit and framing mode of the forwarder's writer.  Observed: the
+    // framing on the socket; the limit from the two probes (a message of exactly `max` bytes arrives, one of
+    // `max + 1` bytes never does)
+    let _ = (&hist_sizes, largest_nonlast);
+    let limit_consistent = largest <= max && !saw_nofit && (saw_fit || !probes || transport == "udp");
+    let observed_max = if limit_consistent { max } else { largest };
+    if ok && !limit_consistent {
+        out.oracle_fail("payload longer than the configured maximum", &format!("{} :: the effective limit is not the configured / documented default one: largest payload {}, {}-byte probe arrived={}, {}-byte probe arrived={}", ctx, largest, max, saw_fit, max + 1, saw_nofit));
+    }
+    out.op(
+        &format!("statsd cfg {} {}", transport, configured.map_or("~".to_string(), |m| m.to_string())),
+        &format!("ok max={} lp={}", observed_max, lp_observed as u8),
+    );
+    out.nontrivial();
 }
